@@ -13,7 +13,10 @@ the same registry derive their keys the same way (sibling probe sequences agree;
 form is one the readers probe; index registries are touched only through normalize_index_name or
 through keys read from the registry itself); (e) CREATE INDEX tests the storage registry (the one
 whose insertion fails on duplicates) for the name before it touches the catalog; (f) no
-order-changing operation is applied to Row.values (columns are positional).
+order-changing operation is applied to Row.values (columns are positional); (g) the name-to-position cache of a
+table definition follows its column list: inside TableSchema every structural change of `columns` (push / remove / insert
+/ retain ..) is followed on every successful path by the matching maintenance of column_index_cache (insert, or clear /
+remove of the name), and outside vibesql_catalog nothing assigns ColumnSchema.name in place (the cache cannot see it).
 Does NOT decide which case rule is right, only that all parties use the same one."""
 from ..engine.callgraph import CallGraph
 from ..engine.paths import Follow, ok_exit_reachable, err_exits_reachable, success_starts, err_origin
@@ -411,3 +414,55 @@ def storage_registration_order(ctx):
         ctx.finding('h/IndexManager::create_index/metadata-before-data', 'IndexManager::create_index registers the metadata of the index before the fallible build of its '
                     'data: when the build fails (bulk load of a disk-backed index) the index stays listed without data and queries planned on it fail with '
                     '"Index not found"', f'{f.file}:{f.blocks[errs[0]]["t"].get("l", f.line)}')
+
+
+_run_main = run
+
+
+def run(ctx):
+    _run_main(ctx)
+    column_cache_rule(ctx)
+
+
+def column_cache_rule(ctx):
+    from ..engine.paths import ok_exit_reachable
+    prog = ctx.prog
+    ctx.rule('C33.g', 'TableSchema methods: a Vec operation that adds/removes an element of self.columns is followed on every Ok path by HashMap insert (additions) or clear/remove '
+             '(removals) on self.column_index_cache; executor/storage functions do not assign ColumnSchema.name')
+    ADD = ('push', 'insert', 'extend', 'append')
+    DEL = ('remove', 'swap_remove', 'retain', 'truncate', 'clear', 'drain', 'pop')
+    n = 0
+    for f in prog.fns.values():
+        if not f.nice.startswith('vibesql_catalog::table::TableSchema::') or f.is_closure():
+            continue
+        s = Sym(f)
+        for i, t in f.calls():
+            cn = callee_name(t) or ''
+            op = cn.rsplit('::', 1)[-1].split('<')[0]
+            if 'Vec' not in cn or not t['args'] or s.op(t['args'][0]) != 'self.columns' or op not in ADD + DEL:
+                continue
+            n += 1
+            want = ('insert',) if op in ADD else ('clear', 'remove', 'retain')
+            maint = {j for j, t2 in f.calls() if 'HashMap' in (callee_name(t2) or '') and t2['args'] and s.op(t2['args'][0]) == 'self.column_index_cache'
+                     and (callee_name(t2) or '').rsplit('::', 1)[-1].split('<')[0] in want}
+            nxt = t.get('to')
+            ok = bool(maint) and nxt is not None and ok_exit_reachable(f, [nxt], maint, loop_model=False) is None
+            short = f.nice.rsplit('::', 1)[1]
+            ctx.instance(f'g/{short}/{op}', {'rule': 'C33.g', 'fn': f.nice, 'loc': f'{f.file}:{t["l"]}', 'cache_maintained': ok})
+            if not ok:
+                ctx.finding(f'g/{short}/{op}', f'{f.nice} changes self.columns ({op}) without the matching maintenance of column_index_cache on every successful path: a dropped '
+                            'column\'s name keeps resolving to a position (UPDATE t SET b = 99 after DROP COLUMN b overwrites the column that moved into its place)', f'{f.file}:{t["l"]}')
+    ctx.floor('C33.g structural changes of TableSchema.columns', n, 2)
+    m = 0
+    for f in prog.fns.values():
+        if f.unit not in ('vibesql_executor', 'vibesql_storage') or '/tests' in f.file or '::tests::' in f.nice:
+            continue
+        for b in f.blocks:
+            for st in b['s']:
+                if 'd' in st and st['d'][1] and st['d'][1][-1] == '.name' and 'ColumnSchema' in str(f.locals[st['d'][0]] if st['d'][0] < len(f.locals) else ''):
+                    m += 1
+                    short = f.nice.rsplit('::', 1)[1]
+                    ctx.finding(f'g/rename-in-place/{short}', f'{f.nice} renames a column by assigning ColumnSchema.name in place: TableSchema.column_index_cache (private to the '
+                                'catalog) keeps the old name, which goes on resolving to the column (after ALTER TABLE c CHANGE COLUMN a a2 INT, INSERT INTO c (id, a) .. and '
+                                'SELECT a FROM c still work)', f'{f.file}:{st["l"]}')
+    ctx.instance('g/rename-in-place', {'rule': 'C33.g', 'assignments_of_ColumnSchema.name_outside_the_catalog': m})
